@@ -58,6 +58,12 @@ CHECKS = {
     text="Search, not proof: 0.7k/25k VOD cases (all segments of all matching representations, by number and by time) and 0.5k/20k live sessions per tier over fixture and synthetic media (8/16-byte IV, subsamples, no tfdt, explicit base offset, styp/sidx).",
     note=SHIMS + ". vt/isobox.py and vt/synth.py share no code with dashlive.",
     design_ref="DESIGN.md section 4, C03"),
+ "C07": dict(
+    engine="hypothesis",
+    technique="round-trip of every registered option (discovered at run time) through to_string -> URL -> werkzeug -> from_string with type-directed value generators; differential: query strings of a manifest's init/media URLs re-parsed by the media route's own option parser and compared field by field with what the manifest request resolved (required-forwarding table taken from the property statement)",
+    text="Search, not proof: 40k/3M generated (option, value) pairs and 1.5k/150k manifest requests per tier; enumerated choices of every option are always in the value pool.",
+    note=SHIMS + ". The server's own option parser is used deliberately on the media side. One open known finding (C07-K1: licence URLs containing '+' or %-escapes are unquoted twice).",
+    design_ref="DESIGN.md section 4, C07"),
 }
 
 _PENDING = "check under construction in this build round; not yet registered (see DESIGN.md section 9)"
